@@ -100,7 +100,7 @@ func checkC01(c *Ctx) error {
 	if err != nil {
 		return err
 	}
-	n := c.Pick(350, 6000)
+	n := c.Pick(350, 24000)
 	var units []*probe.Unit
 	for i := 0; i < n; i++ {
 		r := rand.New(rand.NewSource(c.Seed*7919 + int64(i)))
